@@ -356,8 +356,9 @@ func (g *Gen) coq() string {
 
 // ---- statements ----
 type Stmt struct {
-	Op      string // ret draw if fail skip cleanup context failed log repeat
+	Op      string // ret draw if fail failv skip cleanup context failed log repeat
 	E       *VExp
+	D       *VExp // failv: recursion depth expression (E is the message expression)
 	Raw     bool
 	G       *Gen
 	C       *Cond
@@ -396,6 +397,9 @@ func (s *Stmt) coq() string {
 	case "fail":
 		k := map[string]string{"error": "KError", "fatal": "KFatal", "panic": "KPanic"}[s.Kind]
 		return fmt.Sprintf("(SFail %s %d %s %s)", k, s.Id, msgCoq(s.Variant, s.Msg), s.Next.coq())
+	case "failv":
+		k := map[string]string{"error": "KError", "fatal": "KFatal", "panic": "KPanic"}[s.Kind]
+		return fmt.Sprintf("(SFailV %s %d %s %s %s)", k, s.Id, s.E.coq(), s.D.coq(), s.Next.coq())
 	case "skip":
 		return "(SSkip " + msgCoq(s.Variant, s.Msg) + ")"
 	case "cleanup":
